@@ -1,0 +1,10 @@
+//go:build verif
+
+package goverter
+
+// GenerateConvertersRaw exposes the in-memory generation entry point used by
+// GenerateConverters to verification harnesses. It is only compiled with the
+// "verif" build tag.
+func GenerateConvertersRaw(c *GenerateConfig) (map[string][]byte, error) {
+	return generateConvertersRaw(c)
+}
